@@ -528,3 +528,59 @@ func constStringVal(k *ssa.Const) string {
 }
 
 func strconvUnquote(s string) (string, error) { return strconv.Unquote(s) }
+
+// ---------------------------------------------------------------------------
+// memberNamesAreLastSegments: a dotted global name (cloud.aws.s3.delete_bucket)
+// is a path of modules followed by one member name.  The name handed to
+// Module.Override is never what strings.Cut leaves after the first dot, nor
+// the second part of a two-way SplitN: for a member nested more than one level
+// deep that remainder still contains dots, names no attribute of the first
+// module, and the removal silently does nothing.
+func memberNamesAreLastSegments(c *core.Ctx) {
+	p := c.P
+	n := 0
+	for _, fn := range repoFns(p, ".") {
+		k := 0
+		for _, b := range fn.Blocks {
+			for _, in := range b.Instrs {
+				call, ok := in.(*ssa.Call)
+				if !ok {
+					continue
+				}
+				cal := call.Call.StaticCallee()
+				if cal == nil || cal.Name() != "Override" || cal.Signature.Recv() == nil || !core.IsNamed(cal.Signature.Recv().Type(), pkgPath("object"), "Module") || len(call.Call.Args) < 2 {
+					continue
+				}
+				n++
+				k++
+				bad := ""
+				for _, o := range core.Origins(call.Call.Args[1]) {
+					if ex, ok := o.(*ssa.Extract); ok {
+						if sc, ok := ex.Tuple.(*ssa.Call); ok {
+							if c2 := sc.Call.StaticCallee(); c2 != nil && c2.Pkg != nil && c2.Pkg.Pkg.Path() == "strings" && c2.Name() == "Cut" && ex.Index == 1 {
+								bad = "what strings.Cut leaves after the first separator"
+							}
+						}
+					}
+					if u, ok := o.(*ssa.UnOp); ok {
+						if ia, ok := u.X.(*ssa.IndexAddr); ok {
+							for _, so := range core.Origins(ia.X) {
+								if sc, ok := so.(*ssa.Call); ok {
+									if c2 := sc.Call.StaticCallee(); c2 != nil && c2.Pkg != nil && c2.Pkg.Pkg.Path() == "strings" && c2.Name() == "SplitN" {
+										bad = "a part of a strings.SplitN with a limit"
+									}
+								}
+							}
+						}
+					}
+				}
+				c.Check(bad == "", core.SSAName(fn)+"|member-name-is-the-last-segment|"+sprintf("%d", k), p.Pos(call.Pos()),
+					core.SSAName(fn)+" names the member for Module.Override"+ife(bad == "", " with a single segment of the dotted name", " with "+bad+", which for a member nested two or more modules deep still contains dots: no module has such an attribute, and the refusal is not reported"))
+			}
+		}
+	}
+	if n == 0 {
+		core.Undecidedf("package risor never calls Module.Override")
+	}
+	c.Stat("override_calls", n)
+}
